@@ -32,6 +32,8 @@ pub struct SLink {
     pub prods: Vec<(String, u8)>,
     pub stdout: String,
     pub command: Vec<String>,
+    /// recorded environment (`None` = the member is absent)
+    pub env: Option<Vec<(String, String)>>,
 }
 
 #[derive(Clone, Debug)]
@@ -41,6 +43,10 @@ pub struct SStep {
     pub pubkeys: Vec<usize>,
     pub mats: Vec<ArtifactRule>,
     pub prods: Vec<ArtifactRule>,
+    /// further authorized key ids that no key of the layout (or of the pool) has
+    pub ghost_keys: Vec<String>,
+    /// `expected_command` (verification only warns when the recorded command differs)
+    pub expected_command: Vec<String>,
 }
 
 #[derive(Clone, Debug)]
@@ -98,6 +104,8 @@ pub enum SFile {
 pub struct SDir {
     pub files: Vec<(String, SFile)>,
     pub subs: Vec<(String, SDir)>,
+    /// names of `files` that are put into the directory as symbolic links to the real file
+    pub symlinked: Vec<String>,
 }
 
 #[derive(Clone, Debug)]
@@ -128,8 +136,11 @@ fn arts_of(a: &[(String, u8)]) -> BTreeMap<VirtualTargetPath, TargetDescription>
 }
 
 pub fn link_of(l: &SLink) -> LinkMetadata {
-    LinkMetadataBuilder::new()
-        .name(l.name.clone())
+    let mut b = LinkMetadataBuilder::new();
+    if let Some(e) = &l.env {
+        b = b.env(Some(e.iter().cloned().collect()));
+    }
+    b.name(l.name.clone())
         .materials(arts_of(&l.mats))
         .products(arts_of(&l.prods))
         .byproducts(ByProducts::new().set_stdout(l.stdout.clone()).set_return_value(0))
@@ -160,6 +171,12 @@ pub fn meta_of(pool: &[KeyInfo], m: &SMeta) -> MetadataWrapper {
                 let mut st = Step::new(&s.name).threshold(s.threshold).expected_materials(s.mats.clone()).expected_products(s.prods.clone());
                 for &k in &s.pubkeys {
                     st = st.add_key(pool[k].public().key_id().clone());
+                }
+                for g in &s.ghost_keys {
+                    st = st.add_key(KeyId::from_str(g).unwrap());
+                }
+                if !s.expected_command.is_empty() {
+                    st = st.expected_command(s.expected_command.clone().into());
                 }
                 b = b.add_step(st);
             }
@@ -232,7 +249,15 @@ pub fn write_dir(pool: &[KeyInfo], d: &SDir, at: &Path) {
             SFile::Garbage => "{ this is not a link file".to_string(),
             SFile::Block(b) => block_text(pool, b),
         };
-        std::fs::write(at.join(name), text).unwrap();
+        if d.symlinked.contains(name) {
+            // the real file lives in a side directory; the link directory holds a relative symbolic link
+            let store = at.join(".itv-store");
+            std::fs::create_dir_all(&store).unwrap();
+            std::fs::write(store.join(name), text).unwrap();
+            std::os::unix::fs::symlink(Path::new(".itv-store").join(name), at.join(name)).unwrap();
+        } else {
+            std::fs::write(at.join(name), text).unwrap();
+        }
     }
     for (name, sub) in &d.subs {
         write_dir(pool, sub, &at.join(name));
@@ -306,9 +331,12 @@ fn enc_meta(pool: &[KeyInfo], m: &SMeta) -> String {
             }
             out.push_str(&format!(" {}", l.steps.len()));
             for s in &l.steps {
-                out.push_str(&format!(" {} {} {}", hexs(&s.name), s.threshold, s.pubkeys.len()));
+                out.push_str(&format!(" {} {} {}", hexs(&s.name), s.threshold, s.pubkeys.len() + s.ghost_keys.len()));
                 for &k in &s.pubkeys {
                     out.push_str(&format!(" {}", kid(pool, k)));
+                }
+                for g in &s.ghost_keys {
+                    out.push_str(&format!(" {}", g));
                 }
                 out.push_str(&format!(" {} {}", enc_rules(&s.mats), enc_rules(&s.prods)));
             }
@@ -382,6 +410,8 @@ pub struct Outcome {
     pub panicked: bool,
     pub events: Vec<String>,
     pub op: String,
+    /// members of the returned summary link that the summary is not made of (must be absent)
+    pub summary_extra: Option<String>,
 }
 
 /// Run the real `in_toto_verify` on the scenario in a fresh scratch directory and build the model's op.
@@ -448,6 +478,13 @@ pub fn run(pool: &[KeyInfo], s: &Scenario) -> Outcome {
     let ev_str = if ev_sorted.is_empty() { "E0".to_string() } else { format!("E{} {}", ev_sorted.len(), ev_sorted.join(" ")) };
     let top_only: Vec<String> = ev_sorted.iter().filter(|e| e.starts_with("-:")).cloned().collect();
     let ev_err = if top_only.is_empty() { "E0".to_string() } else { format!("E{} {}", top_only.len(), top_only.join(" ")) };
+    let summary_extra = match &res {
+        Ok(Ok(mb)) => match &mb.metadata {
+            MetadataWrapper::Link(l) if l.env.is_some() => Some(format!("environment = {:?}", l.env)),
+            _ => None,
+        },
+        _ => None,
+    };
     let (answer, ok, panicked) = match &res {
         Err(()) => ("panic".to_string(), false, true),
         Ok(Err(_)) => (format!("err {}", ev_err), false, false),
@@ -467,7 +504,7 @@ pub fn run(pool: &[KeyInfo], s: &Scenario) -> Outcome {
     }
     op.push_str(&format!(" {} {} {}", enc_block(pool, &s.block), enc_dir(pool, &s.dir), runs));
     drop(tmp);
-    Outcome { answer, ok, panicked, events, op }
+    Outcome { answer, ok, panicked, events, op, summary_extra }
 }
 
 // ------------------------------------------------------------------ generator
@@ -521,9 +558,17 @@ impl<'a> Gen<'a> {
         let mut guard = 0;
         while v.len() < n && guard < 200 {
             guard += 1;
-            let k = self.r.below(self.pool.len());
+            let mut k = self.r.below(self.pool.len());
+            // (every third selection starts with a key that has a twin in the pool, if there is one)
+            if guard == 1 && n >= 2 && self.r.chance(1, 3) {
+                let tw: Vec<usize> = (0..self.pool.len()).filter(|&a| (0..self.pool.len()).any(|b| b != a && prefix8(self.pool, a) == prefix8(self.pool, b) && kid(self.pool, a) != kid(self.pool, b))).collect();
+                if !tw.is_empty() {
+                    k = *self.r.pick(&tw);
+                }
+            }
             // distinct key ids
-            if !v.contains(&k) && !avoid.contains(&k) && !v.iter().chain(avoid.iter()).any(|&o| kid(self.pool, o) == kid(self.pool, k)) {
+            // (and distinct key id prefixes: files are named after them)
+            if !v.contains(&k) && !avoid.contains(&k) && !v.iter().chain(avoid.iter()).any(|&o| prefix8(self.pool, o) == prefix8(self.pool, k)) {
                 v.push(k);
             }
         }
@@ -579,7 +624,12 @@ impl<'a> Gen<'a> {
             let mut shared: Option<(SBlock, SDir)> = None;
             for (j, &k) in auth.iter().enumerate().take(nlinks.max(threshold as usize)) {
                 let delegate = depth > 0 && ((j == 0 && threshold == 1 && (self.force_delegate || self.r.chance(1, 3))) || (co && j < 2));
-                let link = SLink { name: name.clone(), mats: mats.clone(), prods: prods.clone(), stdout: format!("built {}", i), command: vec!["make".into(), format!("t{}", i)] };
+                let env = match self.r.below(4) {
+                    0 => Some(vec![]),
+                    1 => Some(vec![("CC".to_string(), "gcc-13".to_string()), ("workdir".to_string(), format!("/home/f{}/app", i))]),
+                    _ => None,
+                };
+                let link = SLink { name: name.clone(), mats: mats.clone(), prods: prods.clone(), stdout: format!("built {}", i), command: vec!["make".into(), format!("t{}", i)], env: if self.multi_party { None } else { env } };
                 let fname = format!("{}.{}.link", name, prefix8(self.pool, k));
                 if delegate {
                     delegated = true;
@@ -611,7 +661,21 @@ impl<'a> Gen<'a> {
                     dir.files.push((fname, SFile::Block(SBlock { sigs: vec![SSig { label: k, signer: k, corrupt: false }], meta: SMeta::Link(link), signed_over: None })));
                 }
             }
-            steps.push(SStep { name, threshold, pubkeys: auth, mats: mat_rules, prods: prod_rules });
+            // the expected command: absent, the recorded one, a proper prefix of it, longer, or different
+            let expected_command: Vec<String> = match self.r.below(6) {
+                0 => vec!["make".into(), format!("t{}", i)],
+                1 => vec!["make".into()],
+                2 => vec!["make".into(), format!("t{}", i), "--jobs=4".into()],
+                3 => vec!["ninja".into(), format!("t{}", i)],
+                _ => vec![],
+            };
+            // (symbolic links in the link directory: some evidence files are reached through one)
+            for (fname, _) in &dir.files {
+                if fname.starts_with(&format!("{}.", name)) && self.r.chance(1, 5) && !dir.symlinked.contains(fname) {
+                    dir.symlinked.push(fname.clone());
+                }
+            }
+            steps.push(SStep { name, threshold, pubkeys: auth, mats: mat_rules, prods: prod_rules, ghost_keys: vec![], expected_command });
             prev_prods = prods;
         }
         let mut inspect = vec![];
@@ -624,7 +688,14 @@ impl<'a> Gen<'a> {
             }
         }
         let mut keys = funs.clone();
-        if self.r.chance(1, 3) {
+        // a key that is defined but has no role - when a functionary has a "twin" (another key whose id
+        // starts with the same eight digits) in the pool, preferably that one
+        let twins: Vec<usize> = (0..self.pool.len())
+            .filter(|&k| !funs.contains(&k) && !signers.contains(&k) && funs.iter().any(|&f| prefix8(self.pool, f) == prefix8(self.pool, k) && kid(self.pool, f) != kid(self.pool, k)))
+            .collect();
+        if !twins.is_empty() && self.r.chance(2, 3) {
+            keys.push(*self.r.pick(&twins));
+        } else if self.r.chance(1, 3) {
             keys.extend(self.pick_keys(1, &funs));
         }
         if delegated {
